@@ -742,10 +742,15 @@ class WatchdogMonitor(WireTracker):
                         st["dwa_at"] = t
                 if f.h.is_request and f.h.code == 282:
                     st["leaving"] = True
+                if f.h.is_request and f.h.code == 280 and st["ready"] and not st["leaving"] and not getattr(nw.node, "_stopping", False):
+                    # "a received DWR is answered ... in either ready sub-state": owed at the next quiescent point
+                    st.setdefault("dwr_owed", []).append((t, f.h.ident(), st["await"] is not None and st["dwa_at"] is None))
             elif k == "out":
                 t, sid, f = ev[1], ev[2], ev[3]
                 st = self.sockstate(sid)
                 s = socks.get(sid)
+                if not f.h.is_request and f.h.code == 280:
+                    st["dwr_owed"] = [o for o in st.get("dwr_owed", []) if o[1] != f.h.ident()]
                 if not f.h.is_request and f.h.code == 257 and f.result_code == 2001:
                     st["ready"] = True
                     st["rx"] = st["rx"] if st["rx"] is not None else t
@@ -803,6 +808,11 @@ class WatchdogMonitor(WireTracker):
             if s is None:
                 continue
             conn = nw.conn_of(s.fs)
+            owed, st["dwr_owed"] = st.get("dwr_owed", []), []
+            if owed and not s.fs.closed and not st["env_closed"] and not st["closed"] and not s.fs.send_blocked and not st["leaving"]:
+                for t, ident, awaiting in owed:
+                    vs.append(("watchdog:received-DWR-not-answered:" + ("while-awaiting-DWA" if awaiting else "ready"),
+                               f"socket {sid}: DWR {ident} received at {t}, no DWA at quiescence"))
             if st["pending_dwr"] is not None:
                 t, rx, idle = st["pending_dwr"]
                 st["pending_dwr"] = None
